@@ -41,14 +41,20 @@ def run(ctx):
             ctx.cov["traces_validated_against_impl"] += summ.get("cases", 0)
             # non-trivial = requests that exercised the protocol state: sessions opened, get-sessions refused,
             # round trips, refused records, protocol errors, requests after a rejected get-session, transport errors
-            ctx.cov["distinct_nontrivial"] += sum(summ.get(k, 0) for k in
-                ("sessions", "rejected", "roundtrips", "refusals", "proto_errors", "after_reject", "sendfail", "recverr"))
-            fails = []
-            for l in mon[:400]:
-                ln_ = int(l.split()[2].rstrip(":"))
-                case = case_of(tr, ln_, START)
-                fails.append({"what": l, "signature": "server " + l.split(": ", 1)[1], "case": case})
-            ctx.monitor_fail += fails
+            ctx.cov["distinct_nontrivial"] += summ.get("nontrivial", 0)
+            if mon:
+                # the stream (from its `stream` line to the failing line) of every failure; keep the shortest ones
+                lines = open(tr).read().splitlines()
+                fails = []
+                for l in mon:
+                    i = min(int(l.split()[2].rstrip(":")), len(lines)) - 1
+                    b = i
+                    while b > 0 and not lines[b].startswith("stream "): b -= 1
+                    fails.append((i - b, "eof => " not in lines[i], b, i, l))
+                fails.sort()
+                for _, _, b, i, l in fails[:25]:
+                    ctx.monitor_fail.append({"what": l, "signature": "server " + l.split(": ", 1)[1], "case": "\n".join(lines[b:i + 1])})
+                del lines
             if mism and not mon:
                 ln_ = int(mism[0].split()[2].rstrip(":"))
                 ctx.corr_broken.append("model of server.go and the real AppEncryption.Session disagree (%d lines), first: %s\ncase:\n%s"
@@ -80,9 +86,9 @@ def run(ctx):
                        "(in-memory metastore, static KMS, memguard), with and without the session cache: all request sequences up to a "
                        "bounded length over {get-session valid/empty, encrypt, decrypt genuine/foreign/corrupt/empty record, empty request} "
                        "ended by EOF (short ones also by a transport error), plus seeded random longer streams in groups of 4 concurrent "
-                       "streams over 3 partitions incl. failing Sends and nil sub-messages; a request counts as non-trivial when it opened "
+                       "streams over 3 partitions incl. failing Sends and nil sub-messages; a request counts (once) as non-trivial when it opened "
                        "or was refused a session, round-tripped, was refused by the SDK, got a protocol error, followed a rejected "
-                       "get-session, or met a transport error (counted by the model driver)")
+                       "get-session, panicked, or its Send failed (counted by the model driver; not deduplicated beyond that)")
     ctx.cov["runs"] = traces
     ctx.assumptions += [
         "gRPC transport and protobuf codec are not modelled (a request is the decoded oneof); probed once per run over a real grpc.Server "
